@@ -151,6 +151,15 @@ func c07Recovery(c *core.Ctx, idx int) {
 		for m[0] == "}" && site.Kind != "Root" {
 			m = gen.Benign[r.Intn(len(gen.Benign))]
 		}
+		if r.Chance(1, 6) {
+			// a forgotten semicolon in the last statement of a braced list
+			last := len(site.Boundaries) - 1
+			if jj := site.Boundaries[last]; jj < len(toks) && toks[jj].S == "}" && !toks[jj].Str && site.Kind != "Root" {
+				bi, j = last, jj
+				m = gen.BenignOpen[r.Intn(len(gen.BenignOpen))]
+				c.Add("recovery_cases_with_an_unterminated_last_statement", 1)
+			}
+		}
 		var mt []gen.Tok
 		for _, s := range m {
 			mt = append(mt, gen.Tok{S: s})
@@ -177,8 +186,8 @@ func c07Recovery(c *core.Ctx, idx int) {
 			return
 		}
 		if bp.Root == nil {
-			c.Add("recovery_cases_without_tree", 1)
-			continue
+			c.Violation(sigBase+"no-tree", "a benign malformed statement (it ends in its own ';' or is closed in by the '}' of its block) cost the whole file: no tree is returned", w)
+			return
 		}
 		// the clean list containing the boundary: innermost list whose statements split around off
 		var cl *stmtList
@@ -276,6 +285,43 @@ func c07Recovery(c *core.Ctx, idx int) {
 		}
 		c.Add("preceding_statements_compared", int64(split))
 		c.Add("following_statements_compared", int64(len(after)))
+		if cl.kind != "Root" {
+			// the error may not leak out of the top-level statement it is in: the top-level statements behind that one
+			// are still the last statements of the returned root, with the same structure
+			var ctop, btop []ast.Vertex
+			for _, f := range obs.Fields(cp.Root) {
+				if f.Name == "Stmts" {
+					ctop = f.Nodes
+				}
+			}
+			for _, f := range obs.Fields(bp.Root) {
+				if f.Name == "Stmts" {
+					btop = f.Nodes
+				}
+			}
+			k := 0
+			for k < len(ctop) {
+				if _, e := nodeSpan(ctop[k]); e >= off || e < 0 {
+					break
+				}
+				k++
+			}
+			if k < len(ctop) {
+				rest := ctop[k+1:]
+				if len(btop) < len(rest) {
+					c.Violation(sigBase+"outer-following-lost", fmt.Sprintf("%d top-level statements follow the top-level statement that contains the malformed one, the returned root has only %d statements", len(rest), len(btop)), w)
+					return
+				}
+				tailTop := btop[len(btop)-len(rest):]
+				for q := range rest {
+					if a, b := obs.StructureCanon(rest[q]), obs.StructureCanon(tailTop[q]); a != b {
+						c.Violation(sigBase+"outer-following-changed|"+obs.Kind(rest[q]), fmt.Sprintf("top-level statement #%d behind the one that contains the malformed statement differs from the clean parse: %s", q, obs.FirstDiff(a, b)), w)
+						return
+					}
+				}
+				c.Add("outer_following_statements_compared", int64(len(rest)))
+			}
+		}
 		if !checkProvenance(c, bp.Root, broken, ver) {
 			return
 		}
@@ -560,7 +606,7 @@ func init() {
 		ID:   "C07",
 		Rule: "cases = known-finding witnesses ++ alternately (a) a generated valid PHP-mode program with 4 (quick) / 12 (thorough) independent insertions of a benign malformed statement (17 shapes such as ') ;', '$x = ;', 'foo( ;') at a PRNG statement boundary of a PRNG statement list, compared with the clean parse, (a') 2..90 well-formed statement texts joined into one list (top level or function body) with a benign malformed statement behind a PRNG subset or all of them: every well-formed statement must be found again in order, (a'') a generated program cut off behind a PRNG token: if a tree is returned, the complete top-level statements before the cut statement are its first statements, identical to the clean parse, and (b) a hostile G3 input whose parse returns a tree together with errors, printed through the provenance writer; non-trivial = recovery program whose insertions were all compared / hostile tree printed; distinct by (clean text, version) / (input, version)",
 		Assumptions: []string{
-			"benign malformed statements cannot extend the preceding statement nor start a valid one and end in ';'",
+			"benign malformed statements cannot extend the preceding statement nor start a valid one and end in ';' — or, without a ';', are the last statement of a list closed by '}'",
 			"printer glue = '<?php ', one blank, '?>'; every other chunk must alias the source buffer (token values are slices of it)",
 			"class/interface/trait member lists have no error production and are not used as insertion lists",
 		},
